@@ -503,6 +503,10 @@ def eval_exact(t, env=None, prims=None):
         return t[1]
     if h == "str":
         return t[1]
+    if h == "inloop":
+        return True                       # marker conjunct of path conditions inside a loop body
+    if h == "none":
+        return None
     if h == "add":
         return sum((eval_exact(x, env, prims) for x in t[1:]), Fraction(0))
     if h == "mul":
